@@ -280,6 +280,17 @@ def h_apply(ctx):
     # through the public entry point: a relocation section holding this one entry, linked to the symbol table
     symtab = _SymTab(ctx, svals)
     elf.get_section = lambda n: symtab
+    if cfg.get('reuse'):
+        # the same handler object first serves another relocation section, linked to ANOTHER symbol table (.rela.dyn -> .dynsym, then
+        # .rela.debug_info -> .symtab), with an entry for the same symbol index: each section takes S from the table it links to
+        other = _SymTab(ctx, [ctx.uint('osym%d' % i, A) for i in range(nsyms)])
+        elf.get_section = lambda n: other if n == 3 else symtab
+        first = _RelSec([reloc], 'SHT_RELA' if rela else 'SHT_REL')
+        first.header['sh_link'] = 3
+        try:
+            handler.apply_section_relocations(ctx.stream(list(data)), first)
+        except EXC.ELFRelocationError:
+            pass
     try:
         handler.apply_section_relocations(st, _RelSec([reloc], 'SHT_RELA' if rela else 'SHT_REL'))
     except EXC.ELFRelocationError:
@@ -376,6 +387,8 @@ def _apply_instances(tier):
                         if mach == 'MIPS' and cls == 32 and t == 18:
                             continue
                         out.append(dict(machine=mach, elfclass=cls, little=little, rela=rela, rtype=t))
+                        if t is not None and t == sorted(table)[-1] and (('RELA' if rela else 'REL') in flavours):
+                            out.append(dict(machine=mach, elfclass=cls, little=little, rela=rela, rtype=t, reuse=True))
     return out
 
 
